@@ -1,2 +1,123 @@
--- Driver stub for C20 (replaced when the property's model driver is written).
-def main : IO Unit := IO.println "C20: no driver yet"
+import TsVerif.Common.IO
+import TsVerif.C20.Judge
+/-!
+Driver for C20.  Protocol (hex = UTF-8 bytes in hex, `-` = empty):
+```
+case <id>
+os <hex>
+orig <hex>
+act <lang> <input> <sexpFields> <sexpPlain> <cst> <hasError 0|1>
+ent0|ent1 <name> <attrsStr> <input> <output> <hlen> <dlen> <hasFields> <platform> <failFast> <expect 0|1|2> <cst> <lang,lang,…>
+wrote1 0|1
+after1 <hex>
+after2 <hex>
+run
+```
+Answer: `<id> parse0=… parse1=… upd1=… upd2=… judge=ok|FAIL:<clauses> n0=… n1=… nt=…`.
+-/
+open TsVerif TsVerif.C20
+
+def natOf (s : String) : Nat := s.toNat?.getD 0
+
+def hexVal' (c : Char) : Nat :=
+  if '0' ≤ c ∧ c ≤ '9' then c.toNat - 48 else if 'a' ≤ c ∧ c ≤ 'f' then c.toNat - 87 else 0
+
+def unhexStr (s : String) : Str :=
+  if s == "-" then [] else
+  let rec go : List Char → ByteArray → ByteArray
+    | a :: b :: rest, acc => go rest (acc.push (UInt8.ofNat (hexVal' a * 16 + hexVal' b)))
+    | _, acc => acc
+  let bytes := go s.toList ByteArray.empty
+  match String.fromUTF8? bytes with
+  | some str => str.toList
+  | none => "<<invalid utf-8>>".toList
+
+def hexOf (s : Str) : String :=
+  let bytes := (String.ofList s).toUTF8
+  if bytes.size == 0 then "-" else
+  bytes.foldl (fun acc b => acc ++ String.singleton (Nat.toDigits 16 (b.toNat / 16)).head! ++ String.singleton (Nat.toDigits 16 (b.toNat % 16)).head!) ""
+
+structure St where
+  id : String := ""
+  os : Str := []
+  orig : Str := []
+  acts : List (Str × Str × Actual) := []
+  ent0 : Array Entry := #[]
+  ent1 : Array Entry := #[]
+  wrote1 : Bool := false
+  after1 : Str := []
+  after2 : Str := []
+
+def parseEntry (ws : List String) : Option Entry :=
+  match ws with
+  | [name, attrs, input, output, hlen, dlen, hf, plat, ff, ex, cst, langs] =>
+    some { name := unhexStr name, input := unhexStr input, output := unhexStr output,
+           hlen := natOf hlen, dlen := natOf dlen, hasFields := hf == "1", attrsStr := unhexStr attrs,
+           attrs := { platform := plat == "1", failFast := ff == "1",
+                      expect := if ex == "2" then .skip else if ex == "1" then .error else .pass,
+                      cst := cst == "1", languages := (langs.splitOn ",").map unhexStr } }
+  | _ => none
+
+def mkOracle (acts : List (Str × Str × Actual)) : Oracle := fun l inp =>
+  (acts.find? fun (l', i', _) => l' == l && i' == inp).map (·.2.2)
+
+def diffEntries (a b : List Entry) : String :=
+  if a == b then "ok"
+  else
+    let rec go : List Entry → List Entry → Nat → String
+      | [], [], _ => "ok"
+      | x :: xs, y :: ys, i => if x == y then go xs ys (i + 1) else
+          let f := if x.name != y.name then "name" else if x.input != y.input then "input" else if x.output != y.output then "output"
+            else if x.attrsStr != y.attrsStr then "attrsStr" else if x.attrs != y.attrs then "attrs"
+            else if x.hlen != y.hlen then "hlen" else if x.dlen != y.dlen then "dlen" else "hasFields"
+          s!"DIFF@{i}:{f}"
+      | xs, ys, i => s!"DIFF@{i}:count({xs.length + i}/{ys.length + i})"
+    go a b 0
+
+def diffStr (a b : Str) : String :=
+  if a == b then "ok" else
+    let rec go : Str → Str → Nat → Nat
+      | x :: xs, y :: ys, i => if x == y then go xs ys (i + 1) else i
+      | _, _, i => i
+    s!"DIFF@{go a b 0}"
+
+def runCase (s : St) : String :=
+  let orc := mkOracle s.acts
+  let e0 := s.ent0.toList
+  let e1 := s.ent1.toList
+  let m0 := parseFile s.os s.orig
+  let p0 := diffEntries m0 e0
+  let p1 := diffEntries (parseFile s.os s.after1) e1
+  let u1 := updateFile s.os orc s.orig
+  let c1 := diffStr u1 s.after1
+  let c2 := diffStr (updateFile s.os orc s.after1) s.after2
+  let sexps := s.acts.foldr (fun (_, _, a) acc => if a.hasError then acc else a.sexpFields :: a.sexpPlain :: acc) []
+  let fails := judge { os := s.os, orig := s.orig, ent0 := e0, wrote1 := s.wrote1, after1 := s.after1,
+                       ent1 := e1, after2 := s.after2, orc := orc, sexps := sexps }
+  let j := if fails.isEmpty then "ok" else "FAIL:" ++ ",".intercalate fails
+  -- non-triviality data, measured on the real entries
+  let attrs := (e0.filter fun e => !e.attrsStr.isEmpty).length
+  let wrong := (e0.filter fun e => !(entryPasses orc e)).length
+  let delimLike := (e0.filter fun e =>
+      (splitIncl e.input).any fun l => (parseDelimLine l '=').isSome || (parseDelimLine l '-').isSome).length
+  let wf := e0.all fun e => e.attrs.cst || sexpLike e.output
+  let model := if c1 == "ok" then "" else s!" model1={hexOf u1}"
+  s!"{s.id} parse0={p0} parse1={p1} upd1={c1} upd2={c2} judge={j} n0={e0.length} n1={e1.length} attrs={attrs} wrong={wrong} delimlike={delimLike} suffixed={if (firstSuffix (splitIncl s.orig)).isSome then 1 else 0} wrote={if s.wrote1 then 1 else 0} wf={if wf then 1 else 0} crlf={if s.orig.contains '\r' then 1 else 0} bytes={s.orig.length}{model}"
+
+def step (s : St) (line : String) : IO St := do
+  match line.splitOn " " with
+  | ["case", id] => return { id := id }
+  | ["os", h] => return { s with os := unhexStr h }
+  | ["orig", h] => return { s with orig := unhexStr h }
+  | ["act", l, i, sf, sp, c, he] =>
+    return { s with acts := s.acts ++ [(unhexStr l, unhexStr i, { sexpFields := unhexStr sf, sexpPlain := unhexStr sp, cst := unhexStr c, hasError := he == "1" })] }
+  | "ent0" :: ws => return (match parseEntry ws with | some e => { s with ent0 := s.ent0.push e } | none => s)
+  | "ent1" :: ws => return (match parseEntry ws with | some e => { s with ent1 := s.ent1.push e } | none => s)
+  | ["wrote1", b] => return { s with wrote1 := b == "1" }
+  | ["after1", h] => return { s with after1 := unhexStr h }
+  | ["after2", h] => return { s with after2 := unhexStr h }
+  | ["run"] => IO.println (runCase s); return s
+  | _ => return s
+
+def main : IO Unit := do
+  let _ ← foldLines (← IO.getStdin) ({} : St) step
